@@ -180,8 +180,8 @@ def _blank_guard(g, pol):
     s = show(g)
     if "strip()" in s and "''" in s and (("!=" in s and pol) or ("==" in s and "!=" not in s and not pol)):
         return True
-    if g == ("param", "react_string") and pol:
-        return True
+    if pol and g in (("param", "react_string"), ("meth", ("param", "react_string"), "strip", (), ())):
+        return True         # `if not react_string[.strip()]: return` ... rest   /   `if react_string[.strip()]: ...`
     if g[0] == "bool" and g[1] == "And":
         return any(_blank_guard(x, pol) for x in g[2]) if pol else False
     if g == ("unop", "Not", ("param", "react_string")) and not pol:
@@ -202,6 +202,7 @@ def _r2(ctx, pkg):
     # the keyword list is found by role: it is what the tokens are tested against (`tok not in <list>`) in the comprehensions
     # that create the reactants and the products
     WANT = ("list", (("star", ("meth", ("attr", SELF, "reactant2type"), "keys", (), ())), ("const", "NAN")))
+    WANT2 = ("list", (("star", ("attr", SELF, "reactant2type")), ("const", "NAN")))       # iterating a dict iterates its keys
     lists = []
     for attr in ("reactants", "products"):
         st = [f for f in fl.facts if f.kind == "attrstore" and f.target == attr]
@@ -215,7 +216,7 @@ def _r2(ctx, pkg):
                 lists += ks
         ctx.check(good, "R2", f"UCLCHEM:{attr}:keyword filter", ("naunet/reactions/uclchemreaction.py", st[-1].line if st else fn.lineno),
                   f"tokens of the keyword list are removed before the {attr} are created")
-    ok = len(lists) == 2 and all(simp(k) == WANT for k in lists)
+    ok = len(lists) == 2 and all(simp(k) in (WANT, WANT2) for k in lists)
     ctx.check(ok, "R2", "UCLCHEM:kwlist", ("naunet/reactions/uclchemreaction.py", fn.lineno), "the keyword list is every key of reactant2type plus the filler NAN",
               found="; ".join(show(simp(k))[:100] for k in lists) or "missing")
     # KROME: reactants/products appended only when _create_species(value) is truthy
@@ -337,7 +338,8 @@ def _kida(ctx, pkg):
               expected="rlen = 34, plen = 56", found=f"rlen = {rl}, plen = {pl}")
     # the writer
     w = pkg.method("Reaction", "__format__")
-    wsrc = ast.unparse(w)
+    # the writer may live in __format__ itself or in a helper it dispatches to: search the class
+    wsrc = ast.unparse(pkg.cls("Reaction").node)
     fills = re.findall(r"_fill_list\(\[f'\{(\w+):<11\}' for \1 in \w+\], (\d), \w+\)", wsrc)
     ctx.check(sorted(n_ for _, n_ in fills) == ["3", "5"], "R4", "KIDA:writer-widths", (R, w.lineno),
               "the KIDA writer pads 3 reactant and 5 product names to 11 columns each")
